@@ -18,6 +18,7 @@
   the harness keeps such cases out of the comparison and counts them.
 -/
 import Ioc.Basic
+import Ioc.Tag
 import Ioc.Generated.Facts
 namespace Ioc
 namespace Placeholder
@@ -576,6 +577,16 @@ def processL (l : Layers) (tagStr : Bytes) : Res :=
 def resolveTwice (cfg : Cfg) (ops : List (Bytes × CVal)) (tags : List Bytes) : List Res × List Res :=
   let l0 : Layers := ⟨[], cfg⟩
   (tags.map (processL l0), tags.map (processL (l0.setAll ops)))
+
+/-! ### from the tag TEXT (seventh round)
+
+  NewProperty (component_definition/property.go:21-33) runs TagArg.Parse over the whole text of the tag: the text before
+  the first top-level comma becomes TagStr / TagVal (`Ioc.Tag.parse?`), the rest the arguments.  The placeholder
+  processor is handed THAT value part. -/
+
+/-- NewProperty(text), then PostProcessProperties: (TagStr, the outcome); `none` = the parser panics -/
+def processText (cfg : Cfg) (text : Bytes) : Option (Bytes × Res) :=
+  (Ioc.Tag.parse? text).map fun va => (va.1, process cfg va.1)
 
 end Placeholder
 end Ioc
